@@ -63,7 +63,7 @@ pub fn r_pending(written: &[u8], p: &[u8]) -> bool {
             return true;
         }
     }
-    if p == b"]" && contains_ci(before, b"<![CDATA[") {
+    if (p == b"]" || p == b"]]") && contains_ci(before, b"<![CDATA[") {
         return true;
     }
     if (ci_prefix_of(p, b"PUBLIC") || ci_prefix_of(p, b"SYSTEM")) && contains_ci(before, b"<!DOCTYPE") {
@@ -226,7 +226,8 @@ fn check_b(input: &[u8], k: usize, out_len: usize, has_selectors: bool) -> Optio
     None
 }
 
-fn last_token_start(pobs: &Prepared, prefix: &[u8]) -> Option<usize> {
+/// (start of the last token, whether that token is text reaching the end of the prefix)
+fn last_token_start(pobs: &Prepared, prefix: &[u8]) -> Option<(usize, bool)> {
     let rr = run(pobs, &[prefix], true);
     if !rr.all_ok() {
         return None;
@@ -234,14 +235,12 @@ fn last_token_start(pobs: &Prepared, prefix: &[u8]) -> Option<usize> {
     rr.events
         .iter()
         .filter_map(|e| match e {
-            Ev::El { loc, .. } | Ev::EndTag { loc, .. } | Ev::Comment { loc, .. } | Ev::Doctype { loc, .. } | Ev::Text { loc, .. }
-                if loc.1 > loc.0 =>
-            {
-                Some(loc.0)
-            }
+            // script data is excluded: its escape / double-escape look-ahead is longer than a keyword
+            Ev::Text { loc, ty, .. } if loc.1 > loc.0 => Some((loc.0, loc.1 == prefix.len() && *ty != 3)),
+            Ev::El { loc, .. } | Ev::EndTag { loc, .. } | Ev::Comment { loc, .. } | Ev::Doctype { loc, .. } if loc.1 > loc.0 => Some((loc.0, false)),
             _ => None,
         })
-        .max()
+        .max_by_key(|x| x.0)
 }
 
 fn check_c(pobs: &Prepared, input: &[u8], k: usize, out_len: usize) -> Option<String> {
@@ -249,8 +248,28 @@ fn check_c(pobs: &Prepared, input: &[u8], k: usize, out_len: usize) -> Option<St
         return None;
     }
     let prefix = &input[..k];
-    let Some(start) = last_token_start(pobs, prefix) else { return None };
+    let Some((start, ends_in_text)) = last_token_start(pobs, prefix) else { return None };
     let slack = if has_text_handler(&pobs.cfg) { 3 } else { 0 };
+    // Text is delivered chunk by chunk, it is never "the unfinished token": when the data so far
+    // ends in text (of any text mode, CDATA included) only a partial character, the start of a
+    // possible tag or a look-ahead may be held back.
+    // (only where output offsets are input offsets: no malformed bytes re-encoded as U+FFFD)
+    let well_formed = match std::str::from_utf8(prefix) {
+        Ok(_) => true,
+        Err(e) => e.error_len().is_none(),
+    };
+    if ends_in_text && out_len <= k && well_formed {
+        let held = &prefix[out_len..];
+        // a partial character (text handlers decode) may precede the tag start / look-ahead
+        let lead = held.iter().take(slack).take_while(|b| **b >= 0x80).count();
+        let rest = &held[lead..];
+        if !rest.is_empty() && !r_pending(prefix, rest) {
+            return Some(format!(
+                "observers registered: the data written so far ({:?}) ends in text, but {:?} ({} bytes) is held back — more than a partial character, a possible tag start or a look-ahead",
+                lossy(prefix), lossy(held), held.len()
+            ));
+        }
+    }
     if out_len + slack < start {
         return Some(format!(
             "observers registered: after writing {:?} only {} bytes were emitted but the last (possibly unfinished) token starts at {}",
